@@ -1184,6 +1184,9 @@ func isStatusErrValue(v ssa.Value) bool {
 		return false
 	}
 	ci := core.InfoOf(&call.Call)
+	if ci.Static != nil && ci.Static.Blocks != nil && strings.HasPrefix(ci.Pkg, core.ModulePath) {
+		return returnsOnlyStatusErrors(ci.Static, 0)
+	}
 	if !strings.HasSuffix(ci.Pkg, "grpc/status") && !strings.HasSuffix(ci.Pkg, "grpc/internal/status") {
 		return false
 	}
@@ -1194,12 +1197,49 @@ func isStatusErrValue(v ssa.Value) bool {
 	return false
 }
 
+var statusOnlyMemo = map[*ssa.Function]int{} // 1 yes, 2 no, 3 in progress
+
+// returnsOnlyStatusErrors: every return of the (library) function yields nil or
+// a status error in its error result.
+func returnsOnlyStatusErrors(fn *ssa.Function, depth int) bool {
+	switch statusOnlyMemo[fn] {
+	case 1:
+		return true
+	case 2, 3:
+		return false
+	}
+	if depth > 2 {
+		return false
+	}
+	statusOnlyMemo[fn] = 3
+	idx := core.ErrResultIndex(fn.Signature)
+	ok := idx >= 0
+	for _, r := range core.Returns(fn) {
+		if !ok {
+			break
+		}
+		for _, l := range core.ErrLeaves(r.Results[idx], r) {
+			if l.Class == core.ErrNil || statusGuardedLeaf(l) {
+				continue
+			}
+			ok = false
+		}
+	}
+	if ok {
+		statusOnlyMemo[fn] = 1
+	} else {
+		statusOnlyMemo[fn] = 2
+	}
+	return ok
+}
+
 // c02ErrFrameIsStatus implements R5 for the stream path of the in-process
 // transport (server-stream types: the frames they write are consumed by the
 // client stream, which returns frame.err unchanged).
 func c02ErrFrameIsStatus(c *core.Ctx) {
 	p := c.P
 	n := 0
+	clientSide := c02ClientConvertsFrameErr(p)
 	for _, nt := range streamTypes(p, "ServerStream", "SendMsg") {
 		if pkgSuffixOf(nt) != "inprocgrpc" {
 			continue
@@ -1246,6 +1286,10 @@ func c02ErrFrameIsStatus(c *core.Ctx) {
 						bad = "the error put into the frame can be a plain Go error (" + core.ValName(leaf) + " is not known to be a status error here)"
 					}
 				}
+				if bad != "" && clientSide {
+					c.Ok(key, st.Pos(), "the frame may carry a plain error, but every return of a frame's error in the client stream's receive path is a status error (converted on the receiving side)")
+					return
+				}
 				c.Check(bad == "", key, st.Pos(), "every value the error frame can carry is a status error", bad+": a streaming handler that returns io.EOF (the classic `return err` after Recv) ends the client's stream with a bare io.EOF, which is the success sentinel — the failed call is reported as success; the standard transport reports Unknown")
 			})
 		}
@@ -1253,4 +1297,70 @@ func c02ErrFrameIsStatus(c *core.Ctx) {
 	if n == 0 {
 		c.Fail("inprocgrpc:error-frame", token.NoPos, "ANCHOR-MISSING: no method of an in-process server stream type stores an error into a frame")
 	}
+}
+
+// statusGuardedLeaf: the leaf is a status error by construction or sits on the
+// ok edge of status.FromError of itself.
+func statusGuardedLeaf(l core.ErrLeaf) bool {
+	if isStatusErrValue(l.V) {
+		return true
+	}
+	leaf := l.V
+	return core.LeafGuarded(l, func(fc core.Fact) bool {
+		if fc.Op != token.ILLEGAL || fc.Neg {
+			return false
+		}
+		ex, isEx := fc.X.(*ssa.Extract)
+		if !isEx || ex.Index != 1 {
+			return false
+		}
+		call, isC := ex.Tuple.(*ssa.Call)
+		if !isC || !core.InfoOf(&call.Call).Is("google.golang.org/grpc/status.FromError") {
+			return false
+		}
+		return core.SameVal(call.Call.Args[0], leaf) || sameOrigins(call.Call.Args[0], leaf)
+	})
+}
+
+// c02ClientConvertsFrameErr: the alternative place for the D16 repair. True if
+// the in-process client stream's receive family returns a received frame's
+// error only as a status error (and returns it at least once).
+func c02ClientConvertsFrameErr(p *core.Prog) bool {
+	isFrameErr := func(v ssa.Value) bool {
+		return core.OriginIs(v, func(o ssa.Value) bool {
+			base, f, ok := core.FieldOf(o)
+			return ok && f == "err" && core.NamedOf(base.Type()) == "frame"
+		})
+	}
+	found, allOK := false, true
+	for _, nt := range streamTypes(p, "ClientStream", "RecvMsg") {
+		if pkgSuffixOf(nt) != "inprocgrpc" {
+			continue
+		}
+		for _, fn := range methodFamily(p, nt, "RecvMsg") {
+			for _, r := range core.Returns(fn) {
+				if len(r.Results) == 0 || !core.IsErrorValue(r.Results[len(r.Results)-1]) {
+					continue
+				}
+				for _, l := range core.ErrLeaves(r.Results[len(r.Results)-1], r) {
+					derived := isFrameErr(l.V)
+					if call, _, ok := core.CallResult(l.V); ok && !derived {
+						for _, a := range call.Call.Args {
+							if isFrameErr(a) {
+								derived = true
+							}
+						}
+					}
+					if !derived {
+						continue
+					}
+					found = true
+					if !statusGuardedLeaf(l) {
+						allOK = false
+					}
+				}
+			}
+		}
+	}
+	return found && allOK
 }
